@@ -560,22 +560,7 @@ func c01GuardDominance(c *Ctx, r *Report, scope []*ssa.Function) {
 	}
 	r.need("table lookups on base types", n, 10)
 	// getMesgAllInvalid only under knownMsgNums[same number]
-	nCtor := 0
-	for _, fn := range scope {
-		for _, ci := range allCalls(fn) {
-			f := ci.Common().StaticCallee()
-			if f == nil || f.Name() != "getMesgAllInvalid" {
-				continue
-			}
-			nCtor++
-			arg := pathOf(ci.Common().Args[0])
-			ok := domByBoolEdge(fn, ci.Block(), true, func(v ssa.Value) bool {
-				lk, isL := v.(*ssa.Lookup)
-				return isL && pathOf(lk.X) == "*fit.knownMsgNums" && pathOf(lk.Index) == arg
-			})
-			r.check(ok, "C01-R2-known-before-ctor", fmt.Sprintf("%s/getMesgAllInvalid-%d", fn.Name(), nCtor), c.pos(ci.Pos()), "constructor table is indexed only with a known message number", "getMesgAllInvalid("+arg+") is not guarded by knownMsgNums["+arg+"]: an unknown number indexes newMesgFuncs out of range or calls a nil entry")
-		}
-	}
+	c01KnownBeforeCtor(c, r, scope)
 	if p, _ := c.profile(); p != nil {
 		okT := true
 		for mn := range p.Known {
@@ -1312,4 +1297,28 @@ func idxBelowLen(fn *ssa.Function, b *ssa.BasicBlock, idx, slice ssa.Value) bool
 		}
 		return false
 	})
+}
+
+// c01KnownBeforeCtor (C01-R2-known-before-ctor; also run under C15): the constructor table is indexed
+// only under `knownMsgNums[the same number]` — the known table itself, looked up with the message
+// number itself. A second table, a masked index or a range test in its place makes the decoder treat
+// numbers as known for which the profile has no type and no constructor.
+func c01KnownBeforeCtor(c *Ctx, r *Report, scope []*ssa.Function) int {
+	nCtor := 0
+	for _, fn := range scope {
+		for _, ci := range allCalls(fn) {
+			f := ci.Common().StaticCallee()
+			if f == nil || f.Name() != "getMesgAllInvalid" {
+				continue
+			}
+			nCtor++
+			arg := pathOf(ci.Common().Args[0])
+			ok := domByBoolEdge(fn, ci.Block(), true, func(v ssa.Value) bool {
+				lk, isL := v.(*ssa.Lookup)
+				return isL && pathOf(lk.X) == "*fit.knownMsgNums" && pathOf(lk.Index) == arg
+			})
+			r.check(ok, "C01-R2-known-before-ctor", fmt.Sprintf("%s/getMesgAllInvalid-%d", fn.Name(), nCtor), c.pos(ci.Pos()), "constructor table is indexed only with a known message number", "getMesgAllInvalid("+arg+") is not guarded by knownMsgNums["+arg+"]: an unknown number indexes newMesgFuncs out of range or calls a nil entry")
+		}
+	}
+	return nCtor
 }
